@@ -51,7 +51,12 @@ TFILES = os.path.join(REPO, "src", "psyclone", "tests", "test_files",
                       "dynamo0p3")
 PSYCLONE = "/venv/bin/psyclone"
 PYC = os.path.join(ROOT, ".build", "c29_pyc")
-WATCHDOG_S = float(os.environ.get("VF_C29_WATCHDOG", "300"))
+# Wall-clock watchdog (keeps the check finite; a firing is inconclusive, never
+# a violation).  It is progress-aware so that a heavily loaded machine does
+# not trip it: it fires when the awaited process has consumed no CPU for
+# STALL_S seconds, or after WATCHDOG_S seconds in any case.
+WATCHDOG_S = float(os.environ.get("VF_C29_WATCHDOG", "1500"))
+STALL_S = float(os.environ.get("VF_C29_STALL", "150"))
 STRACE_SET = ("openat,open,creat,write,pwrite64,writev,rename,renameat,"
               "renameat2,unlink,unlinkat,close")
 
@@ -98,6 +103,7 @@ class _Run:
         self.ev_r = None
         self.ctl_w = None
         self.buf = b""
+        self.pids = set()
         self.state = "running"
         self.cur = None
         self.ops = []
@@ -173,13 +179,32 @@ def _launch(run, cfg, base, outdir, use_strace):
     run.ev_r, run.ctl_w = ev_r, ctl_w
 
 
+def _cpu_ticks(pids):
+    """utime+stime (clock ticks) of the given processes, None if unknown."""
+    total, seen = 0, False
+    for pid in pids:
+        try:
+            with open("/proc/%d/stat" % pid) as fh:
+                fields = fh.read().rsplit(")", 1)[1].split()
+            total += int(fields[11]) + int(fields[12])
+            seen = True
+        except (OSError, IndexError, ValueError):
+            continue
+    return total if seen else None
+
+
 def _wait_event(run, log, deadline):
     """Read this run's messages until it pauses (returns the message) or
-    exits (returns None)."""
+    exits (returns None).  Raises Watchdog after `deadline`, or when the
+    process made no CPU progress for STALL_S seconds."""
+    last_cpu = None
+    last_progress = time.time()
     while True:
         while b"\n" in run.buf:
             line, run.buf = run.buf.split(b"\n", 1)
             msg = json.loads(line)
+            if "pid" in msg:
+                run.pids.add(msg["pid"])
             msg["run"] = run.idx
             log.append(msg)
             if msg["t"] == "pause":
@@ -187,9 +212,17 @@ def _wait_event(run, log, deadline):
                 run.cur = msg
                 return msg
             run.ops.append(msg)
-        left = deadline - time.time()
+        now = time.time()
+        cpu = _cpu_ticks(run.pids | {run.proc.pid})
+        if cpu is None or cpu != last_cpu:
+            last_cpu = cpu
+            last_progress = now
+        left = deadline - now
         if left <= 0:
-            raise Watchdog("run %d silent" % run.idx)
+            raise Watchdog("run %d silent for %.0f s" % (run.idx, WATCHDOG_S))
+        if now - last_progress > STALL_S:
+            raise Watchdog("run %d silent and without CPU progress for "
+                           "%.0f s" % (run.idx, STALL_S))
         ready, _, _ = select.select([run.ev_r], [], [], min(left, 5.0))
         if ready:
             chunk = os.read(run.ev_r, 65536)
@@ -729,7 +762,8 @@ def explore(ctx, cfg, pool, cap, batch, root=None):
             if res["status"] == "ok":
                 frontier.extend(res["alts"])
         rnd_no += 1
-    return out, (not frontier), len(frontier)
+    done = not frontier and all(r["status"] == "ok" for r in out)
+    return out, done, len(frontier)
 
 
 def explore_all(ctx, cfgs, pool, caps, batch, refs, roots=None):
